@@ -653,6 +653,7 @@ func enumerate(quick bool) []*gspec {
 		single(idx("s?", "U"), vEnd)
 		// first() on a leading lookahead (known finding first-last)
 		single(idx("(?=Z)", "s"), vFL)
+		add("(?=Z) s / end action only, first()/last() recorded", forceFL(makeRule(idx("(?=Z)", "s"), nil, true, -1)))
 		typedTerminalsOnly()
 		// templates
 		templates(idx("P", "s"), []string{"+"}, [][]string{{"+F", "~F"}}, []bool{true})
